@@ -8,7 +8,7 @@ Three legs on every run (DESIGN 3.3):
                     on the model's code (drv_c03 mrun) vs chibicc on everything the model can express (goto, Duff's device);
   (c) scoping       generated shadowing programs; which declaration each use bound to: scope model vs chibicc vs gcc.
 """
-import os, json, hashlib, itertools
+import os, json, hashlib, itertools, shutil
 from .framework import *
 
 PROPERTY = 'C03'
@@ -528,9 +528,11 @@ def parse_runs(out):
 class Built:
     pass
 
-def build_unit(ctx, tag, src, streams, want_asm=True):
-    """compile one translation unit with the snapshot's chibicc and with gcc, link both with the harness, run both.
-    Returns Built with .asm, .cc_runs, .gcc_runs, .errors"""
+def build_unit(ctx, tag, src, streams, want_asm=True, with_clang=False):
+    """compile one translation unit with the snapshot's chibicc and with gcc (and clang on request), link each with the
+    harness, run each.  Returns Built with .asm, .cc_runs, .gcc_runs, .clang_runs ({i: (events, END|LIMIT|SPIN|CRASH)}), and
+    .errors = compile/link failures [(who, text)].  A crash at run time is not an error here: the function that crashed has
+    outcome CRASH and the later ones are missing; the caller arbitrates per function."""
     b = Built()
     b.errors = []
     d = os.path.join(ctx.scratch, 'c03')
@@ -549,33 +551,50 @@ def build_unit(ctx, tag, src, streams, want_asm=True):
         else:
             b.asm = o
     h = build_harness(ctx)
-    b.cc_runs = b.gcc_runs = None
-    occ, ogcc = os.path.join(d, tag + '.cc.o'), os.path.join(d, tag + '.gcc.o')
-    rc, o, e = sh([ctx.cc, '-c', '-o', occ, path], timeout=60)
-    if rc != 0:
-        b.errors.append(('chibicc -c', e[-400:]))
-    rc2, o2, e2 = sh(['gcc', '-O0', '-w', '-c', '-o', ogcc, path], timeout=60)
-    if rc2 != 0:
-        b.errors.append(('gcc -c', e2[-400:]))
-    for obj, attr in ((occ, 'cc_runs'), (ogcc, 'gcc_runs')):
-        if not os.path.exists(obj):
-            continue
+    b.cc_runs = b.gcc_runs = b.clang_runs = None
+    jobs = [('cc', [ctx.cc, '-c'], 'chibicc -c'), ('gcc', ['gcc', '-O0', '-w', '-c'], 'gcc -c')]
+    if with_clang and shutil.which('clang-14'):
+        jobs.append(('clang', ['clang-14', '-O0', '-w', '-c'], 'clang -c'))
+    for who, cmd, label in jobs:
+        obj = os.path.join(d, f'{tag}.{who}.o')
         exe = obj[:-2] + '.exe'
+        rc, o, e = sh(cmd + ['-o', obj, path], timeout=60)
+        if rc != 0:
+            b.errors.append((label, e[-400:]))
+            continue
         rc, o, e = sh(['gcc', '-no-pie', '-o', exe, h, obj], timeout=60)
         if rc != 0:
-            b.errors.append(('link ' + attr, e[-400:]))
-            continue
-        rc, o, e = sh([exe, sfile, str(LIMIT)], timeout=60)
-        runs = parse_runs(o)
-        if rc != 0:
-            b.errors.append(('run ' + attr, f'rc={rc} {e[-200:]}'))
-        setattr(b, attr, runs)
-    for f in (occ, ogcc, occ[:-2] + '.exe', ogcc[:-2] + '.exe'):
-        try:
-            os.remove(f)
-        except OSError:
-            pass
+            b.errors.append(('link ' + who, e[-400:]))
+        else:
+            rc, o, e = sh([exe, sfile, str(LIMIT)], timeout=60)
+            setattr(b, who + '_runs', parse_runs(o))
+        for f in (obj, exe):
+            try:
+                os.remove(f)
+            except OSError:
+                pass
     return b
+
+def arbitrate(ctx, fn_text, stream):
+    """one function, three compilers.  'violation' when the chibicc build differs from every reference build that ran and
+    the references do not contradict each other in chibicc's favour; 'oracle' when chibicc agrees with at least one
+    reference (the other reference is then the one that is wrong: e.g. gcc 12 drops the statement after an out-of-range
+    `case` label when an unreachable `goto *&&L` names a label there); 'unknown' when nothing can be compared."""
+    b = build_unit(ctx, 'arb', unit_source([fn_text]), [stream], want_asm=False, with_clang=True)
+    cc = (b.cc_runs or {}).get(0)
+    refs = {}
+    for who in ('gcc', 'clang'):
+        r = (getattr(b, who + '_runs') or {}).get(0)
+        if r is not None and r[1] != 'CRASH':
+            refs[who] = r
+    info = {'chibicc': cc, 'refs': refs, 'errors': b.errors}
+    if any(w.startswith('chibicc') or w == 'link cc' for w, _ in b.errors):
+        return ('violation' if refs else 'unknown'), info
+    if not refs:
+        return 'unknown', info
+    if cc is not None and any(cc == r for r in refs.values()):
+        return ('same' if all(cc == r for r in refs.values()) else 'oracle'), info
+    return 'violation', info
 
 def ev_model(s):
     """'m 1;c 2' -> ['m 1','c 2']"""
@@ -651,12 +670,8 @@ def shrink_candidates(t):
             yield with_children(t, ch[:i] + [c2] + ch[i + 1:])
 
 def single_differs(ctx, tree, stream):
-    """does the chibicc build of this one function behave differently from the gcc build?  None if not comparable"""
-    src = unit_source([to_c(tree, 0)])
-    b = build_unit(ctx, 'shrink', src, [stream], want_asm=False)
-    if b.cc_runs is None or b.gcc_runs is None or 0 not in b.cc_runs or 0 not in b.gcc_runs:
-        return None
-    return b.cc_runs[0] != b.gcc_runs[0]
+    """does the chibicc build of this one function behave differently from the reference builds?"""
+    return arbitrate(ctx, to_c(tree, 0), stream)[0] == 'violation'
 
 def shrink(ctx, tree, stream, budget=45):
     cur = tree
@@ -711,7 +726,7 @@ def nest_batch(ctx, corr, tag, nf, mode, maxdepth, fixed=None):
     if b.errors:
         # both compilers must accept a valid program; chibicc refusing it is reported, gcc refusing it is a generator bug
         kinds = [k for k, _ in b.errors]
-        if any(k.startswith('gcc') for k in kinds):
+        if any('gcc' in k for k in kinds):
             corr.disagreements.append({'kind': 'generator produced a program gcc rejects', 'errors': b.errors, 'source': src[:3000]})
         else:
             corr.violations.append({'what': 'chibicc fails on a valid program (' + kinds[0] + ')', 'errors': b.errors,
@@ -753,19 +768,29 @@ def nest_batch(ctx, corr, tag, nf, mode, maxdepth, fixed=None):
         corr.evaluations += 1
         cc = b.cc_runs.get(i)
         gc = b.gcc_runs.get(i)
-        if cc is None or gc is None:
-            corr.disagreements.append({'kind': 'harness output incomplete', 'function': i, 'source': to_c(t, 0, style)})
-            return False
-        corr.count('run:' + cc[1])
-        if cc != gc:
-            small, sstream = shrink(ctx, t, streams[i])
-            sb = build_unit(ctx, 'min', unit_source([to_c(small, 0)]), [sstream], want_asm=False)
-            j, x, y = first_diff(sb.cc_runs[0][0], sb.gcc_runs[0][0]) if sb.cc_runs and sb.gcc_runs else (None, None, None)
-            corr.violations.append({'what': 'compiled code executes a different statement sequence than the abstract machine (gcc twin)',
-                                    'input': unit_source([to_c(small, 0)]), 'oracle_values': sstream, 'sexpr': sx(small),
-                                    'expected': (sb.gcc_runs or {}).get(0), 'got': (sb.cc_runs or {}).get(0), 'first_difference': [j, y, x],
-                                    'original': to_c(t, 0, style)})
-            return False
+        corr.count('run:' + (cc[1] if cc else 'missing'))
+        if cc != gc or cc is None or cc[1] == 'CRASH':
+            verdict, info = arbitrate(ctx, to_c(t, 0, style), streams[i])
+            if verdict in ('oracle', 'same', 'unknown'):
+                # the reference compiler is the one that is wrong (or crashed): not evidence about chibicc
+                corr.count('oracle-' + verdict)
+                corr.extra.setdefault('reference_compiler_disagreements', []).append(
+                    {'source': to_c(t, 0, style)[:1500], 'values': streams[i], 'gcc': info['refs'].get('gcc'),
+                     'clang': info['refs'].get('clang'), 'chibicc': info['chibicc']}) if len(corr.extra.get('reference_compiler_disagreements', [])) < 3 else None
+                cc, gc = info['chibicc'], next((r for r in info['refs'].values() if r == info['chibicc']), None)
+                if cc is None or gc is None:
+                    continue
+            else:
+                small, sstream = shrink(ctx, t, streams[i])
+                v2, i2 = arbitrate(ctx, to_c(small, 0), sstream)
+                ref = i2['refs'].get('gcc') or i2['refs'].get('clang')
+                j, x, y = first_diff((i2['chibicc'] or ([], ''))[0], (ref or ([], ''))[0])
+                corr.violations.append({'what': 'compiled code executes a different statement sequence than the abstract machine '
+                                                '(gcc and clang twins agree with each other)',
+                                        'input': unit_source([to_c(small, 0)]), 'oracle_values': sstream, 'sexpr': sx(small),
+                                        'expected': ref, 'got': i2['chibicc'], 'references': i2['refs'], 'errors': i2['errors'],
+                                        'first_difference': [j, y, x], 'original': to_c(t, 0, style)})
+                return False
         e = ex[i]
         if e['structured'] and e['how'] == 'unsupported':
             corr.disagreements.append({'kind': 'Spec.exec rejects a structured program', 'sexpr': sx(t)})
@@ -936,7 +961,7 @@ def expr_batch(ctx, corr, tag, nf):
     b = build_unit(ctx, tag, src, streams, want_asm=False)
     if b.errors:
         kinds = [k for k, _ in b.errors]
-        if any(k.startswith('gcc') for k in kinds):
+        if any('gcc' in k for k in kinds):
             corr.disagreements.append({'kind': 'expression generator produced a program gcc rejects', 'errors': b.errors, 'source': src[:3000]})
         else:
             corr.violations.append({'what': 'chibicc fails on a valid program (' + kinds[0] + ')', 'input': src[:6000],
@@ -946,21 +971,25 @@ def expr_batch(ctx, corr, tag, nf):
         corr.evaluations += 1
         corr.count('expr-control')
         cc, gc = b.cc_runs.get(i), b.gcc_runs.get(i)
-        if cc != gc:
+        if cc != gc or cc is None or cc[1] == 'CRASH':
+            verdict, info = arbitrate(ctx, texts[i], streams[i])
+            if verdict != 'violation':
+                corr.count('oracle-' + verdict)
+                continue
             # minimise by dropping lines of the function
             lines = texts[i].strip('{}\n').split('\n')
-            best = lines
+            best, binfo = lines, info
             for drop in range(len(lines)):
                 cand = lines[:drop] + lines[drop + 1:]
                 if not cand:
                     continue
-                bb = build_unit(ctx, 'emin', unit_source(['{\n' + '\n'.join(cand) + '\n}\n']), [streams[i]], want_asm=False)
-                if bb.cc_runs and bb.gcc_runs and bb.cc_runs.get(0) != bb.gcc_runs.get(0):
-                    best = cand
+                v2, i2 = arbitrate(ctx, '{\n' + '\n'.join(cand) + '\n}\n', streams[i])
+                if v2 == 'violation':
+                    best, binfo = cand, i2
                     break
-            corr.violations.append({'what': 'short-circuit / conditional / comma / statement-expression evaluation differs from gcc',
+            corr.violations.append({'what': 'short-circuit / conditional / comma / statement-expression evaluation differs from gcc and clang',
                                     'input': unit_source(['{\n' + '\n'.join(best) + '\n}\n']), 'oracle_values': streams[i],
-                                    'expected': gc, 'got': cc})
+                                    'expected': binfo['refs'], 'got': binfo['chibicc']})
             return False
         if cc and len(cc[0]) >= 4:
             corr.nontrivial.add('expr:' + hashlib.sha1((texts[i] + str(streams[i])).encode()).hexdigest())
@@ -979,14 +1008,16 @@ def corpus_run(ctx, corr):
             src = open(path).read()
             m = re.search(r'streams:\n(.*?)\*/', src, re.S)
             streams = [[int(x) for x in l.split()] for l in m.group(1).strip().splitlines()] if m else [[]]
-            b = build_unit(ctx, 'corpus_' + fn[:-2], src, streams, want_asm=False)
+            b = build_unit(ctx, 'corpus_' + fn[:-2], src, streams, want_asm=False, with_clang=True)
             corr.evaluations += 1
             corr.count('corpus-c')
-            if b.errors or b.cc_runs != b.gcc_runs:
-                bad = next((i for i in sorted(b.gcc_runs or {}) if (b.cc_runs or {}).get(i) != b.gcc_runs.get(i)), None)
-                corr.violations.append({'what': f'corpus program {fn}: chibicc build differs from gcc build', 'input': src,
+            refs = [r for r in (b.gcc_runs, b.clang_runs) if r]
+            if b.errors or not refs or not any(b.cc_runs == r for r in refs):
+                ref = refs[0] if refs else {}
+                bad = next((i for i in sorted(ref) if (b.cc_runs or {}).get(i) != ref.get(i)), None)
+                corr.violations.append({'what': f'corpus program {fn}: chibicc build differs from the gcc and clang builds', 'input': src,
                                         'errors': b.errors, 'function': bad,
-                                        'expected': (b.gcc_runs or {}).get(bad), 'got': (b.cc_runs or {}).get(bad)})
+                                        'expected': ref.get(bad), 'got': (b.cc_runs or {}).get(bad)})
                 return False
             corr.nontrivial.add('corpus:' + fn)
         elif fn.endswith('.json'):
@@ -1186,6 +1217,11 @@ def scope_batch(ctx, corr, count):
             corr.disagreements.append({'kind': 'scope generator produced a program gcc rejects', 'source': src, 'stderr': e[-600:]})
             return False
         got_g = sh([exe_g], timeout=20)[1].splitlines()
+        if got_g != expect and shutil.which('clang-14'):
+            # a second reference before blaming the model
+            if sh(['clang-14', '-O0', '-w', '-o', exe_g, path], timeout=60)[0] == 0 and sh([exe_g], timeout=20)[1].splitlines() == expect:
+                corr.count('oracle-oracle')
+                got_g = expect
         if got_g != expect:
             j, x, y = first_diff(got_g, expect)
             corr.disagreements.append({'kind': 'scope model disagrees with gcc (specification error)', 'source': src, 'index': j,
@@ -1281,8 +1317,8 @@ def replay(ctx, corr, path):
         if g != c:
             corr.violations.append(dict(payload, got=c.splitlines(), expected=g.splitlines()))
         return
-    b = build_unit(ctx, 'replay', src, [payload.get('oracle_values', [])], want_asm=False)
-    same = b.cc_runs == b.gcc_runs and not b.errors
+    b = build_unit(ctx, 'replay', src, [payload.get('oracle_values', [])], want_asm=False, with_clang=True)
+    same = not b.errors and any(b.cc_runs == r for r in (b.gcc_runs, b.clang_runs) if r)
     print('replay:', 'now agrees with gcc' if same else 'still differs')
     if not same:
         corr.violations.append(dict(payload, got=b.cc_runs, expected=b.gcc_runs))
